@@ -3,7 +3,8 @@
    proofs in Lib/AddersProofs.v, Lib/ReducerProofs.v, Lib/MultProofs.v,
    Lib/SeqMultProofs.v.  Bit lists are LSB first; bval = unsigned value. *)
 From PyRTL Require Import Lib.Mult Lib.SeqMult Lib.BitListFacts Lib.AddersProofs
-  Lib.AddersProofs2 Lib.AddersProofs3 Lib.AddersProofs4 Lib.ReducerProofs Lib.MultProofs Lib.MultProofs2
+  Lib.AddersProofs2 Lib.AddersProofs3 Lib.AddersProofs4 Lib.AddersProofs5 Lib.ReducerProofs
+  Lib.MultProofs Lib.MultProofs2 Lib.MultProofs3
   Lib.SeqMultProofs.
 
 (* ------------------------------------------------------------------ adders *)
@@ -198,6 +199,61 @@ Theorem C13_fma_exact_when_fits : forall red add pairs adds r,
   bval r = fma_exact pairs adds.
 Proof. exact generalized_fma_exact_when_fits. Qed.
 Print Assumptions C13_fma_exact_when_fits.
+
+(* ------------------------------------ totality and result widths (unconditional) *)
+
+(* Dada completion: the schedule never runs out of wires, for EVERY column array
+   (pass invariant: 2*height <= 3*target and at most floor(target/2) carries in) *)
+Theorem C13_dada_reducer_returns : forall add cols rw,
+  (length cols <= rw)%nat -> exists r, dada_reducer add cols rw = Some r.
+Proof. exact dada_reducer_returns. Qed.
+Print Assumptions C13_dada_reducer_returns.
+
+(* both reducers: exact, total, and filling all result_bitwidth bits (`fills`:
+   the array is rw long, or has a column of height >= 3, or height 2 and rw <= len+1);
+   the three final adders: exact with result length max+1 *)
+Theorem C13_reducers_good : reducer_good wallace_reducer /\ reducer_good dada_reducer.
+Proof. exact reducers_good. Qed.
+Print Assumptions C13_reducers_good.
+
+Theorem C13_adders_good :
+  adder_good add_ks /\ adder_good add_ripple /\ forall la, (1 <= la)%nat -> adder_good (add_cla la).
+Proof. exact adders_good. Qed.
+Print Assumptions C13_adders_good.
+
+(* tree_multiplier always returns the exact product at width len(A)+len(B) *)
+Theorem C13_tree_multiplier_total : forall red add A B,
+  reducer_good red -> adder_good add -> (1 <= length A)%nat -> (1 <= length B)%nat ->
+  exists r, tree_multiplier red add A B = Some r /\
+            bval r = bval A * bval B /\ length r = (length A + length B)%nat.
+Proof. exact tree_multiplier_total. Qed.
+Print Assumptions C13_tree_multiplier_total.
+
+(* signed_tree_multiplier always returns (operands at least 2 bits: sign bit required) *)
+Theorem C13_signed_tree_multiplier_total : forall A B,
+  (2 <= length A)%nat -> (2 <= length B)%nat ->
+  exists r, signed_tree_multiplier A B = Some r /\
+            sval r = sval A * sval B /\ length r = (length A + length B)%nat.
+Proof. exact signed_tree_multiplier_total. Qed.
+Print Assumptions C13_signed_tree_multiplier_total.
+
+(* fast_group_adder always returns the exact sum at width L + ceil(log2 k) *)
+Theorem C13_fast_group_adder_total : forall red add ws,
+  reducer_good red -> adder_good add -> wires_nonempty ws ->
+  exists r, fast_group_adder red add ws = Some r /\
+            bval r = sum_bvals ws /\ length r = fga_width ws.
+Proof. exact fast_group_adder_total. Qed.
+Print Assumptions C13_fast_group_adder_total.
+
+(* generalized_fma / fused_multiply_adder always return, at the code's result width,
+   the exact value modulo 2^width (F11: that width can be too narrow) *)
+Theorem C13_generalized_fma_total : forall red add pairs adds,
+  reducer_good red -> adder_good add -> pairs_nonempty pairs -> wires_nonempty adds ->
+  exists r, generalized_fma red add pairs adds = Some r /\
+            bval r = fma_exact pairs adds mod 2 ^ Z.of_nat (fma_width pairs adds) /\
+            length r = fma_width pairs adds.
+Proof. exact generalized_fma_total. Qed.
+Print Assumptions C13_generalized_fma_total.
 
 (* ---------------------------------------------------- sequential multipliers *)
 
